@@ -100,6 +100,7 @@ type Engine struct {
 	closeEvents  []*ChanObj
 	sleeps       []*Term
 	tickerStops  int
+	tickerResets int
 	tickerPeriod []*Term
 	latency      *Term
 	wgHook       FuncV
@@ -479,6 +480,7 @@ func (e *Engine) resetPathState() {
 	e.closeEvents = nil
 	e.sleeps = nil
 	e.tickerStops = 0
+	e.tickerResets = 0
 	e.tickerPeriod = nil
 	e.latency = nil
 	e.wgHook = FuncV{}
@@ -585,7 +587,7 @@ func (e *Engine) RunOne(fn *ssa.Function, prefix []Decision, wit *Witness) [][]D
 	for k := range e.path.reached {
 		e.h.Reached[k]++
 	}
-	if len(e.h.Samples) < 2 && st == "DONE" && len(e.path.trace) > 0 {
+	if len(e.h.Samples) < 8 && st == "DONE" && len(e.path.trace) > 0 {
 		e.h.Samples = append(e.h.Samples, strings.Join(e.path.trace, " ; "))
 	}
 	if wit != nil {
@@ -679,7 +681,7 @@ func (r *HarnessResult) merge(o *HarnessResult) {
 			r.Unmodelled = append(r.Unmodelled, u)
 		}
 	}
-	if len(r.Samples) < 3 {
+	if len(r.Samples) < 8 {
 		r.Samples = append(r.Samples, o.Samples...)
 	}
 	r.Dumps = append(r.Dumps, o.Dumps...)
